@@ -160,9 +160,9 @@ Proof.
   assert (Ok1 : owner (state_at tr (S k)) m <> Some t2).
   { rewrite (state_at_S _ _ _ Hk). unfold apply; simpl. unfold set_owner. rewrite String.eqb_refl. discriminate. }
   destruct (acq_between tr m t2 (S k) j) as (l & Hkl & Hlj & Hl); auto; try lia.
-  eapply hb_trans; [eapply hb_po with (i := i) (j := k); eauto; lia|].
-  eapply hb_trans; [eapply hb_lock with (i := k) (j := l); eauto; lia|].
-  eapply hb_po with (i := l) (j := j); eauto.
+  apply hb_trans with k; [apply hb_po with t1 (EAcc o1) (ERel m); auto; lia|].
+  apply hb_trans with l; [apply hb_lock with t1 t2 m; auto; lia|].
+  apply hb_po with t2 (EAcq m) e2; auto.
 Qed.
 
 (* ------------------------------------------------------------------ symmetry of the pair predicates *)
@@ -241,12 +241,12 @@ Proof.
   unfold pair_ok in P. rewrite Hconf, Hat in P. simpl in P.
   apply orb_true_iff in P. destruct P as [P|P].
   - apply common_mutex_inv in P. destruct P as (m & A & B).
-    eapply lock_hb with (m := m) (t1 := Ctl) (t2 := Flt); eauto. discriminate.
+    eapply lock_hb with (m := m) (t1 := Ctl) (t2 := Flt); eauto; discriminate.
   - destruct (o_phase c) eqn:Ph; simpl in P; try discriminate; simpl in Phi.
     + destruct (fork_between tbl tr i j) as (k & Hik & Hkj & Hk); auto; try lia.
       assert (i <> k) by (intros ->; rewrite Hi in Hk; discriminate).
-      eapply hb_trans; [eapply hb_po with (i := i) (j := k); eauto; lia|].
-      eapply hb_fork; eauto.
+      apply hb_trans with k; [apply hb_po with Ctl (EAcc c) EFork; auto; lia|].
+      apply hb_fork with (EAcc f); auto.
     + rewrite (joined_mono tr i j) in Jj; auto; try lia. discriminate.
 Qed.
 
@@ -262,13 +262,13 @@ Proof.
   unfold pair_ok in P. rewrite Hconf, Hat in P. simpl in P.
   apply orb_true_iff in P. destruct P as [P|P].
   - apply common_mutex_inv in P. destruct P as (m & A & B).
-    eapply lock_hb with (m := m) (t1 := Flt) (t2 := Ctl); eauto. discriminate.
+    eapply lock_hb with (m := m) (t1 := Flt) (t2 := Ctl); eauto; discriminate.
   - destruct (o_phase c) eqn:Ph; simpl in P; try discriminate; simpl in Phj.
     + rewrite (forked_mono tr i j) in Phj; auto; try lia. discriminate.
     + destruct (join_between tbl tr i j) as (k & Hik & Hkj & Hk); auto; try lia.
       assert (i <> k) by (intros ->; rewrite Hi in Hk; discriminate).
-      eapply hb_trans; [eapply hb_join with (i := i) (j := k); eauto; lia|].
-      eapply hb_po with (i := k) (j := j); eauto.
+      apply hb_trans with k; [apply hb_join with (EAcc f); auto; lia|].
+      apply hb_po with Ctl EJoin (EAcc c); auto.
 Qed.
 
 (* MAIN THEOREM (all tables, all executions): every race of every execution is
